@@ -122,6 +122,11 @@ def run_check(prop: str, tier: str, seed: int, only_spec: dict | None = None) ->
         for f in cf.as_completed(futs):
             results.append(f.result())
     results.sort(key=lambda r: r["shard"])
+    if getattr(mod, "FINALIZE", False) and only_spec is None:
+        # offline checker over everything the shards recorded (runs after all of them)
+        fspec = {"shard": len(specs), "finalize": True, "tier": tier, "seed": seed}
+        specs.append(fspec)
+        results.append(_run_one(prop, len(specs) - 1, fspec, run_dir, timeout))
 
     # ---------------------------------------------------------------- aggregate
     evaluations = 0
